@@ -372,23 +372,53 @@ pub enum Host {
 }
 
 /// Write the expression inside a unit and check what comes back.
+thread_local! {
+    /// Creation order of the entries around the referring entry (see `host_unit`).
+    static LAYOUT: std::cell::Cell<u8> = const { std::cell::Cell::new(0) };
+}
+const LAYOUTS: [&str; 6] = ["base1,before,subject,after,base2", "before,subject,after,base1,base2", "base1,base2,before,subject,after", "before,base2,subject,base1,after", "before{subject},after,base2,base1", "before,subject,base1,after,base2"];
+
 fn host_unit(ctx: &mut Ctx, cfg: &Cfg, bs: &[B], host: Host, evaluate: bool) {
-    let case = || format!("{} host {:?} built {}", cfg.name(), host, render_b(bs));
+    let case = || format!("{} host {:?} entries created as [{}] built {}", cfg.name(), host, LAYOUTS[LAYOUT.with(|l| l.get()) as usize], render_b(bs));
     ctx.eval(1);
     let built = guard(|| {
         let mut dwarf = Dwarf::new();
         let unit_id = dwarf.units.add(Unit::new(wencoding(cfg), LineProgram::none()));
         let unit = dwarf.units.get_mut(unit_id);
         let root = unit.root();
-        let b1 = unit.add(root, gimli::DW_TAG_base_type);
-        unit.get_mut(b1).set(gimli::DW_AT_byte_size, AttributeValue::Udata(4));
-        let t1 = unit.add(root, gimli::DW_TAG_variable);
-        unit.get_mut(t1).set(gimli::DW_AT_byte_size, AttributeValue::Udata(1));
-        let subj = unit.add(root, gimli::DW_TAG_subprogram);
-        let t2 = unit.add(root, gimli::DW_TAG_constant);
-        unit.get_mut(t2).set(gimli::DW_AT_byte_size, AttributeValue::Udata(SENT_B));
-        let b2 = unit.add(root, gimli::DW_TAG_base_type);
-        unit.get_mut(b2).set(gimli::DW_AT_byte_size, AttributeValue::Udata(8));
+        // creation order of the root's children (the writer moves base types to the front)
+        let order: &[u8] = match LAYOUT.with(|l| l.get()) {
+            0 => b"1vs2c",
+            1 => b"vsc12",
+            2 => b"12vsc",
+            3 => b"v2s1c",
+            4 => b"vSc21",
+            _ => b"vs1c2",
+        };
+        let (mut b1, mut b2, mut t1, mut t2, mut subj) = (root, root, root, root, root);
+        for &k in order {
+            match k {
+                b'1' => {
+                    b1 = unit.add(root, gimli::DW_TAG_base_type);
+                    unit.get_mut(b1).set(gimli::DW_AT_byte_size, AttributeValue::Udata(4));
+                }
+                b'2' => {
+                    b2 = unit.add(root, gimli::DW_TAG_base_type);
+                    unit.get_mut(b2).set(gimli::DW_AT_byte_size, AttributeValue::Udata(8));
+                }
+                b'v' => {
+                    t1 = unit.add(root, gimli::DW_TAG_variable);
+                    unit.get_mut(t1).set(gimli::DW_AT_byte_size, AttributeValue::Udata(1));
+                }
+                b's' => subj = unit.add(root, gimli::DW_TAG_subprogram),
+                // the referring entry as a child of the entry before it
+                b'S' => subj = unit.add(t1, gimli::DW_TAG_subprogram),
+                _ => {
+                    t2 = unit.add(root, gimli::DW_TAG_constant);
+                    unit.get_mut(t2).set(gimli::DW_AT_byte_size, AttributeValue::Udata(SENT_B));
+                }
+            }
+        }
         let ids = Ids { unit: unit_id, b1, b2, t1, t2 };
         let expr = build(bs, Some(&ids));
         match host {
@@ -425,7 +455,9 @@ fn host_unit(ctx: &mut Ctx, cfg: &Cfg, bs: &[B], host: Host, evaluate: bool) {
             write::Error::ValueTooLarge => ctx.outcome("refused:value-too-large"),
             // a fix-up that does not fit the section it is applied to is never a justified refusal
             write::Error::OffsetOutOfBounds | write::Error::LengthOutOfBounds => ctx.fail("write::Dwarf::write", "refusal", "fixup-out-of-bounds", format!("{}: {:?}", case(), e)),
-            write::Error::UnsupportedExpressionForwardReference => ctx.outcome("refused:forward-reference"),
+            // base types are written before every other entry of the unit, and the other
+            // references have a fixed size: nothing the harness builds refers forward
+            write::Error::UnsupportedExpressionForwardReference => ctx.fail("write::Dwarf::write", "refusal", "forward-reference-to-base-type", format!("{}: {:?}", case(), e)),
             _ => ctx.fail("write::Dwarf::write", "refusal", "unexpected-error", format!("{}: {:?}", case(), e)),
         }
         return;
@@ -849,6 +881,40 @@ fn other_hosts_sub(len: u32) -> Sub {
     })
 }
 
+/// Every creation order of the base types and targets around the referring entry.
+fn layouts_sub() -> Sub {
+    let cfgs = c15_cfgs();
+    let n = builder_alphabet(&cfgs[0]).len() as u64;
+    let ncfg = cfgs.len() as u64;
+    let nlay = LAYOUTS.len() as u64 - 1;
+    Sub::new(
+        "entry-creation-orders",
+        (1 + n) * ncfg * nlay,
+        &format!("every sequence of 1 or 2 builder calls over the {}-symbol alphabet x version x format x address size x 5 further creation orders of the unit's entries (base types all after the referring entry, all before it, interleaved the other way round, the referring entry nested in a child, base type between the referring entry and the later target), hosted in a DIE attribute and in a location list: the writer moves base types to the front, so no reference may be refused as a forward reference", n),
+        move |ctx, i| {
+            let cfg = cfgs[(i % ncfg) as usize];
+            let lay = 1 + ((i / ncfg) % nlay) as u8;
+            let first = (i / ncfg / nlay) as usize;
+            let al = builder_alphabet(&cfg);
+            LAYOUT.with(|l| l.set(lay));
+            if first == 0 {
+                for x in &al {
+                    let bs = vec![x.clone()];
+                    host_unit(ctx, &cfg, &bs, Host::Die, true);
+                    host_unit(ctx, &cfg, &bs, Host::LocList, false);
+                }
+            } else {
+                for x in &al {
+                    let bs = vec![al[first - 1].clone(), x.clone()];
+                    host_unit(ctx, &cfg, &bs, Host::Die, true);
+                    host_unit(ctx, &cfg, &bs, Host::LocList, false);
+                }
+            }
+            LAYOUT.with(|l| l.set(0));
+        },
+    )
+}
+
 fn singles_sub() -> Sub {
     let cfgs = c15_cfgs();
     let ncfg = cfgs.len() as u64;
@@ -1087,6 +1153,7 @@ pub fn def(tier: Tier) -> CheckDef {
         subs.push(other_hosts_sub(len));
     }
     subs.push(singles_sub());
+    subs.push(layouts_sub());
     subs.push(branch_sub(tier));
     subs.push(far_branch_sub());
     subs.push(symbolic_sub());
